@@ -95,20 +95,25 @@ def render(v, names):
 class Model:
     """hooks shared by all model runs"""
 
-    def __init__(self, repo):
+    def __init__(self, repo, lengths=None):
         self.repo = repo
         self.folder = Folder(repo)
         self.dexm = repo.mod(DEX)
         self.anam = repo.mod(ANALYSIS)
-        self.L = [Sym("L0"), Sym("L1"), Sym("L2")]
+        # symbolic lengths by default; a concrete vector of (even) byte lengths as a fallback instance of the model
+        self.L = list(lengths) if lengths is not None else [Sym("L0"), Sym("L1"), Sym("L2")]
         self.ins = [_Ins(0), _Ins(1), _Ins(2)]
-        self.S = [0, self.L[0], (Lin.of(self.L[0]) + Lin.of(self.L[1])).simplify(),
-                  (Lin.of(self.L[0]) + Lin.of(self.L[1]) + Lin.of(self.L[2])).simplify()]
+        def _sum(xs):
+            t = Lin({}, 0)
+            for x in xs:
+                t = t + Lin.of(x)
+            return t.simplify()
+        self.S = [0, _sum(self.L[:1]), _sum(self.L[:2]), _sum(self.L[:3])]
         self.method = _Tok("method")
         self.code = _Tok("method.get_code()")
         self.dcode = _Tok("method.get_code().get_bc()")
-        self.positive = {s: 2 for s in self.L}  # lower bounds of symbols (lengths are >= 2 bytes)
-        self.symbols = set(self.L)
+        self.positive = {s: 2 for s in self.L if isinstance(s, Sym)}  # lower bounds of symbols (lengths are >= 2 bytes)
+        self.symbols = {s for s in self.L if isinstance(s, Sym)}
         self.lookups = []
         self.bad_targets = []
         self.payload = None
@@ -175,6 +180,18 @@ class Model:
         return NotImplemented
 
     def method_hook(self, it, recv, name, args, kwargs, e, func):
+        if isinstance(recv, dict):
+            if name == "items" and not args:
+                return [(k, v) for k, v in recv.items()]
+            if name == "keys" and not args:
+                return list(recv.keys())
+            if name == "values" and not args:
+                return list(recv.values())
+            if name == "get" and args and _norm(args[0]) is not None and not isinstance(_const(args[0]), int):
+                for kk, v in recv.items():
+                    if _same(kk, args[0]):
+                        return v
+                return args[1] if len(args) > 1 else None
         if isinstance(recv, _Ins):
             if name == "get_length":
                 return self.ins_attrs.get((recv.k, "length"), self.L[recv.k])
@@ -224,6 +241,12 @@ class Model:
         return NotImplemented
 
     def call_hook(self, it, name, callee, args, kwargs, e, func):
+        if name == "sorted" and len(args) == 1 and isinstance(args[0], (list, tuple)) and not kwargs:
+            r = self.sort(it, list(args[0]), e, func)
+            if r is not None:
+                return r
+        if name in ("dict", "list", "set") and not args and not kwargs:
+            return {"dict": dict, "list": list, "set": set}[name]()
         if name in ("any", "all") and len(args) == 1 and isinstance(args[0], (list, tuple)) and all(isinstance(x, bool) for x in args[0]):
             return any(args[0]) if name == "any" else all(args[0])
         if name == "isinstance" and len(args) == 2:
@@ -250,12 +273,98 @@ class Model:
                     return NotImplemented
         return NotImplemented
 
+    def less(self, it, a, b, node, func):
+        """a < b for model values / tuples of them (lexicographic); None if undecided"""
+        if isinstance(a, (tuple, list)) and isinstance(b, (tuple, list)):
+            for x, y in zip(a, b):
+                if self._eq(it, x, y, node, func) is True:
+                    continue
+                return self.less(it, x, y, node, func)
+            return len(a) < len(b)
+        if isinstance(a, (int, str)) and isinstance(b, type(a)) and not isinstance(a, bool):
+            return a < b
+        try:
+            r = self.compare(it, ast.Lt(), a, b, node, func)
+        except Exception:
+            return None
+        return r if isinstance(r, bool) else None
+
+    def _eq(self, it, a, b, node, func):
+        if isinstance(a, (int, str)) and isinstance(b, (int, str)):
+            return a == b
+        if _norm(a) is not None and _norm(b) is not None:
+            return _same(a, b)
+        return a is b
+
+    def sort(self, it, xs, node, func):
+        out = []
+        for x in xs:
+            pos = len(out)
+            for j, y in enumerate(out):
+                lt = self.less(it, x, y, node, func)
+                if lt is None:
+                    return None
+                if lt:
+                    pos = j
+                    break
+            out.insert(pos, x)
+        return out
+
+    def subscript(self, it, base, k, e, func):
+        """dict lookup with a symbolic (linear-form) key: decided by equality of the normal forms"""
+        if isinstance(base, dict) and _norm(k) is not None and not isinstance(_const(k), int):
+            for kk, v in base.items():
+                if _same(kk, k):
+                    return v
+            raise Raised("KeyError", e, show(k))
+        return NotImplemented
+
     def hooks(self, inline):
         return {"compare": self.compare, "method": self.method_hook, "call": self.call_hook, "binop": self.binop,
-                "global": self.global_hook, "inline_funcs": inline}
+                "global": self.global_hook, "subscript": self.subscript, "inline_funcs": inline}
 
     def interp(self, asg, inline):
-        return Interp(self.repo, self.folder, asg=dict(asg), hooks=self.hooks(inline), unknown_cond="error")
+        return _ModelInterp(self, self.repo, self.folder, asg=dict(asg), hooks=self.hooks(inline), unknown_cond="error")
+
+
+class _ModelInterp(Interp):
+    """a truth value that depends only on the model's own symbols (e.g. `if payload_idx % 4:`) can go either way for real
+    inputs: both outcomes are explored.  Every other undecidable condition is an AnalysisError."""
+
+    def __init__(self, model, *a, **kw):
+        super().__init__(*a, **kw)
+        self._model = model
+
+    def _comp(self, e, env, func, kind):
+        """comprehensions with several `for` clauses over concrete sequences"""
+        if len(e.generators) <= 1 or isinstance(e, ast.DictComp):
+            return super()._comp(e, env, func, kind)
+        out = []
+
+        def rec(i, env2):
+            if i == len(e.generators):
+                out.append(self.eval(e.elt, env2, func))
+                return
+            g = e.generators[i]
+            seq = self.concrete_iter(self.eval(g.iter, env2, func))
+            if seq is None:
+                raise AnalysisError("%s: comprehension over a symbolic sequence (%s)" % (func.loc(e), ast.unparse(g.iter)[:60]))
+            for item in seq:
+                env3 = dict(env2)
+                self.assign(g.target, item, env3, func)
+                if all(self.truth(self.eval(c, env3, func), c, func) for c in g.ifs):
+                    rec(i + 1, env3)
+        rec(0, dict(env))
+        return out
+
+    def unknown(self, v, node, func):
+        if self._model.is_model_value(v):
+            from .absint import Split
+            key = ("m", "truth", repr(_norm(v)) if _norm(v) is not None else show(v))
+            if key in self.asg:
+                return bool(self.asg[key])
+            raise Split([key])
+        return super().unknown(v, node, func)
 
 
 def _has_unknown(v):
@@ -285,11 +394,27 @@ def _const(v):
 # =====================================================================================================
 # (A) offset accumulators
 # =====================================================================================================
+CONCRETE_LENGTHS = [(2, 4, 6), (6, 2, 4), (4, 6, 2)]
+
+
 def rule_offset_functions(sink, repo):
-    md = Model(repo)
+    """symbolic lengths first; where a condition on them cannot be decided (e.g. an offset compared with a small
+    constant, a halved length) the same model is evaluated for a few concrete length vectors instead -- every one of
+    them is a possible method, so a mismatch found there is still a positively computed counterexample"""
+    try:
+        _offset_functions(sink, Model(repo))
+    except AnalysisError as e:
+        if hasattr(sink, "note"):
+            sink.note("offset functions: symbolic lengths undecided (%s); evaluated for the length vectors %s" % (str(e)[:160], CONCRETE_LENGTHS))
+        for lens in CONCRETE_LENGTHS:
+            _offset_functions(sink, Model(repo, lens))
+
+
+def _offset_functions(sink, md):
+    repo = md.repo
     dcode = md.dexm.cls("DCode")
     inline = _all_funcs(md.dexm, md.anam)
-    names = {md.L[0]: "len(ins0)", md.L[1]: "len(ins1)", md.L[2]: "len(ins2)"}
+    names = {l: "len(ins%d)" % k for k, l in enumerate(md.L) if isinstance(l, Sym)}
     S = md.S
     off_inside = (Lin.of(md.L[0]) + Lin({}, 1)).simplify()
     what_of = ["offset of instruction 0 (0)", "offset of instruction 1 (len0)", "offset of instruction 2 (len0+len1)"]
@@ -496,9 +621,11 @@ def rule_payload_model(sink, repo):
     extra = looked - PAYLOAD_USERS
     sink.check("payload-opcodes", "DEXBasicBlock.push payload opcodes", not extra, f, "push payload lookup for %s" % _ops(extra),
                "DEXBasicBlock.push looks a payload up for %s, which do not carry a payload offset" % _ops(extra), detail="no payload lookup outside {%s}" % _ops(PAYLOAD_USERS))
+    push_deferred = None
     if PAYLOAD_USERS - looked:
-        raise AnalysisError("DEXBasicBlock.push: no payload lookup through method.get_code().get_bc().get_ins_off() observed for %s -- the link is established in a way "
-                            "this rule does not follow" % _ops(PAYLOAD_USERS - looked))
+        # not a verdict: the link may be established elsewhere (decided by the end-to-end model, rule_payload_links_model)
+        push_deferred = ("DEXBasicBlock.push: no payload lookup through method.get_code().get_bc().get_ins_off() observed for %s -- the link is "
+                         "established in a way the per-function rule does not follow" % _ops(PAYLOAD_USERS - looked))
 
     # ---------------------------------------------------------------- determineNext
     f = md.dexm.functions.get("determineNext")
@@ -571,9 +698,10 @@ def rule_payload_model(sink, repo):
         raise AnalysisError("determineNext: no payload lookup through m.get_code().get_bc().get_ins_off() observed for %s -- the targets are obtained in a way this rule does not follow" % _ops(SWITCH_OPS - looked))
     a, b = canon.get("push", set()), canon.get("determineNext", set())
     sink.ob("payload-address", "siblings agree", a == b, "push: %s / determineNext: %s" % (sorted(a), sorted(b)))
-    sink.floor("payload_lookups", 2)
-    sink.floor("unit_terms", 3)
+    sink.floor("payload_lookups", 1 if push_deferred else 2)
+    sink.floor("unit_terms", 2 if push_deferred else 3)
     sink.floor("block_end_updates", 1)
+    return push_deferred
 
 
 def _opn(k):
@@ -584,3 +712,139 @@ def _opn(k):
 
 def _ops(s):
     return ", ".join(_opn(k) for k in sorted(s)) or "-"
+
+
+# =====================================================================================================
+# (C) end to end: after MethodAnalysis._create_basic_block the payload link of every fill-array-data instruction is
+#     the instruction the disassembler reports at the encoded offset (two instructions sharing one payload)
+# =====================================================================================================
+def rule_payload_links_model(sink, repo):
+    """-> True if the model could be evaluated (violations, if any, have been reported); raises AnalysisError otherwise"""
+    from fractions import Fraction
+    md = Model(repo)
+    inline = _all_funcs(md.dexm, md.anam)
+    ana = md.anam
+    L3 = Sym("L3")
+    md.L.append(L3)
+    md.positive[L3] = 2
+    md.symbols.add(L3)
+    S = md.S
+    fad = md.dexm.classes.get("FillArrayData")
+    if fad is None:
+        raise AnalysisError("class FillArrayData vanished")
+    payload = Obj(fad, "payload")
+    i0, i1, i3 = _Ins(0, 0x26), _Ins(1, 0x26), _Ins(3, 0x0E)
+    md.ins = [i0, i1, payload, i3]
+    half = Fraction(1, 2)
+    # both fill-array-data instructions encode the offset of the same payload (instruction 2):  S_k + 2*ref_off_k = S_2
+    md.ins_attrs = {(0, "ref_off"): Lin({md.L[0]: half, md.L[1]: half}), (1, "ref_off"): Lin({md.L[1]: half})}
+    offsets = [S[0], S[1], S[2], S[3]]
+    names = {md.L[0]: "len0", md.L[1]: "len1", md.L[2]: "len2", L3: "len3"}
+    base_method = md.method_hook
+
+    def method_hook(it, recv, name, args, kwargs, e, func):
+        if recv is payload:
+            if name == "get_length":
+                return md.L[2]
+            if name == "get_op_value":
+                return 0x0300
+            return Sym("payload.%s" % name)
+        if recv is md.method:
+            if name == "get_instructions_idx":
+                return [(offsets[k], md.ins[k]) for k in range(4)]
+            if name == "get_instructions":
+                return list(md.ins)
+            if name == "get_name":
+                return "m"
+            if name == "get_code_off":
+                return 0
+        if recv is md.dcode and name == "get_ins_off" and len(args) == 1:
+            for k in range(4):
+                if _same(args[0], offsets[k]):
+                    return md.ins[k]
+            if _norm(args[0]) is None:
+                raise AnalysisError("payload address %s is outside the interpreter's fragment" % show(args[0])[:80])
+            return None
+        if isinstance(recv, Sym) and recv.op == "module" and func is not None:
+            r = func.module.resolve_name(recv.args[0])
+            if r is not None and r[0] == "module" and r[1] is not None and name in r[1].functions:
+                target = r[1].functions[name]
+                hr = func_hook(it, target, args, kwargs, e, func)
+                if hr is not NotImplemented:
+                    return hr
+                return it.call_function(target, args, kwargs)
+        if isinstance(recv, Obj) and recv.cls is not None and recv.cls.lookup(name) is None:
+            a = recv.cls.lookup_attr(name)
+            if isinstance(a, ast.Name) and recv.cls.lookup(a.id) is not None:  # class-level alias:  get = __iter__
+                return it.call_function(recv.cls.lookup(a.id), args, kwargs, recv=recv)
+        return base_method(it, recv, name, args, kwargs, e, func)
+
+    model_classes = {"DEXBasicBlock", "BasicBlocks", "Exceptions", "ExceptionAnalysis"}
+
+    def construct(it, cls, args, kwargs, e, func):
+        if cls.module is ana and cls.name in model_classes:
+            o = Obj(cls, cls.name)
+            init = cls.lookup("__init__")
+            if init is not None:
+                it.call_function(init, args, kwargs, recv=o)
+            return o
+        return NotImplemented
+
+    def func_hook(it, target, args, kwargs, e, func):
+        if target.qualname == "determineException":
+            return []
+        return NotImplemented
+
+    def global_hook(it, name, func):
+        if name == "BasicOPCODES" and func is not None and func.module is ana:
+            return set(dalvik.FLOW_OPS)
+        return md.global_hook(it, name, func)
+
+    ma_cls = ana.cls("MethodAnalysis")
+    f = ma_cls.lookup("_create_basic_block")
+    sink.require(f is not None, "anchor vanished: MethodAnalysis._create_basic_block")
+    hooks = md.hooks(inline)
+    hooks.update(method=method_hook, construct=construct, func=func_hook)
+    hooks["global"] = global_hook
+
+    def run(asg):
+        it = _ModelInterp(md, repo, md.folder, asg=dict(asg), hooks=hooks, unknown_cond="error")
+        mo = Obj(ma_cls, "method_analysis")
+        bbs = construct(it, ana.cls("BasicBlocks"), [], {}, None, f)
+        exs = construct(it, ana.cls("Exceptions"), [], {}, None, f)
+        mo.attrs.update({"_MethodAnalysis__vm": _Tok("vm"), "method": md.method, "basic_blocks": bbs, "exceptions": exs, "code": md.code})
+        it.call_function(f, [], recv=mo)
+        blocks = bbs.attrs.get("bb")
+        if not isinstance(blocks, list) or not blocks or not all(isinstance(b, Obj) for b in blocks):
+            raise AnalysisError("MethodAnalysis._create_basic_block: no basic blocks in the model run")
+        out = []
+        for k in (0, 1):
+            got = []
+            for b in blocks:
+                g = b.cls.lookup("get_special_ins")
+                if g is None:
+                    raise AnalysisError("DEXBasicBlock.get_special_ins vanished")
+                got.append(it.call_function(g, [offsets[k]], recv=b))
+            out.append(got)
+        return out
+
+    res = explore(run)
+    for asg, r in res:
+        if isinstance(r, Raised):
+            raise AnalysisError("MethodAnalysis._create_basic_block raises %s in the model" % r)
+    sink.analysed(f)
+    for asg, r in res:
+        for k, got in zip((0, 1), r):
+            hit = [g for g in got if g is not None]
+            ok = len(hit) >= 1 and all(g is payload for g in hit)
+            shown = "nothing (None)" if not hit else ", ".join(show(g)[:40] for g in hit)
+            if hit and not all(isinstance(g, (Obj, _Ins)) for g in hit):
+                raise AnalysisError("get_special_ins: result %s is outside the interpreter's fragment" % shown)
+            sink.count("payload_links_end_to_end")
+            sink.check("payload-link", "fill-array-data %d of 2 sharing one payload" % (k + 1), ok, f,
+                       "get_special_ins(offset of fill-array-data #%d) -> %s" % (k + 1, shown),
+                       "model method [fill-array-data, fill-array-data, payload, return-void] whose two fill-array-data instructions both encode the offset of the payload: "
+                       "after _create_basic_block, get_special_ins(%s) is %s; the disassembler reports the fill-array-data-payload at the encoded offset %s" % (
+                           render(offsets[k], names), shown, render(offsets[2], names)),
+                       detail="linked to the payload the disassembler reports at the encoded offset")
+    return True
